@@ -415,39 +415,39 @@ macro_rules! c19_one2 {
 
 #[macro_export]
 macro_rules! c19_dims1 {
-    ($ev:ident, $id:ident, $T:ty, $sto:tt, $strat:tt) => {
+    ($ev:ident, $id:ident, $shard:ident, $shards:ident, $T:ty, $sto:tt, $strat:tt) => {
         $id += 1;
-        $crate::c19_one1!($ev, $id, $T, Ix1, 1, $sto, $strat);
+        if $id % $shards == $shard { $crate::c19_one1!($ev, $id, $T, Ix1, 1, $sto, $strat); }
         $id += 1;
-        $crate::c19_one1!($ev, $id, $T, Ix2, 2, $sto, $strat);
+        if $id % $shards == $shard { $crate::c19_one1!($ev, $id, $T, Ix2, 2, $sto, $strat); }
         $id += 1;
-        $crate::c19_one1!($ev, $id, $T, Ix3, 3, $sto, $strat);
+        if $id % $shards == $shard { $crate::c19_one1!($ev, $id, $T, Ix3, 3, $sto, $strat); }
         $id += 1;
-        $crate::c19_one1!($ev, $id, $T, Ix4, 4, $sto, $strat);
+        if $id % $shards == $shard { $crate::c19_one1!($ev, $id, $T, Ix4, 4, $sto, $strat); }
         $id += 1;
-        $crate::c19_one1!($ev, $id, $T, Ix5, 5, $sto, $strat);
+        if $id % $shards == $shard { $crate::c19_one1!($ev, $id, $T, Ix5, 5, $sto, $strat); }
         $id += 1;
-        $crate::c19_one1!($ev, $id, $T, Ix6, 6, $sto, $strat);
+        if $id % $shards == $shard { $crate::c19_one1!($ev, $id, $T, Ix6, 6, $sto, $strat); }
         $id += 1;
-        $crate::c19_one1!($ev, $id, $T, IxDyn, 3, $sto, $strat);
+        if $id % $shards == $shard { $crate::c19_one1!($ev, $id, $T, IxDyn, 3, $sto, $strat); }
     };
 }
 
 #[macro_export]
 macro_rules! c19_dims2 {
-    ($ev:ident, $id:ident, $T:ty, $sto:tt) => {
+    ($ev:ident, $id:ident, $shard:ident, $shards:ident, $T:ty, $sto:tt) => {
         $id += 1;
-        $crate::c19_one2!($ev, $id, $T, Ix2, 2, $sto);
+        if $id % $shards == $shard { $crate::c19_one2!($ev, $id, $T, Ix2, 2, $sto); }
         $id += 1;
-        $crate::c19_one2!($ev, $id, $T, Ix3, 3, $sto);
+        if $id % $shards == $shard { $crate::c19_one2!($ev, $id, $T, Ix3, 3, $sto); }
         $id += 1;
-        $crate::c19_one2!($ev, $id, $T, Ix4, 4, $sto);
+        if $id % $shards == $shard { $crate::c19_one2!($ev, $id, $T, Ix4, 4, $sto); }
         $id += 1;
-        $crate::c19_one2!($ev, $id, $T, Ix5, 5, $sto);
+        if $id % $shards == $shard { $crate::c19_one2!($ev, $id, $T, Ix5, 5, $sto); }
         $id += 1;
-        $crate::c19_one2!($ev, $id, $T, Ix6, 6, $sto);
+        if $id % $shards == $shard { $crate::c19_one2!($ev, $id, $T, Ix6, 6, $sto); }
         $id += 1;
-        $crate::c19_one2!($ev, $id, $T, IxDyn, 4, $sto);
+        if $id % $shards == $shard { $crate::c19_one2!($ev, $id, $T, IxDyn, 4, $sto); }
     };
 }
 
@@ -456,24 +456,24 @@ macro_rules! c19_dims2 {
 macro_rules! c19_all {
     ($fname:ident, $T:ty, $float:tt) => {
         /// `stratum`: 0 = everything, 1 = the (dims x interpolator) stratum with owned storage
-        pub fn $fname(ev: &mut $crate::Ev, stratum: u32) {
+        pub fn $fname(ev: &mut $crate::Ev, stratum: u32, shard: u64, shards: u64) {
             #[allow(unused_imports)]
             use $crate::ndarray::{Ix1, Ix2, Ix3, Ix4, Ix5, Ix6, IxDyn};
             let mut id: u64 = 0;
-            $crate::c19_dims1!(ev, id, $T, owned, Linear);
-            $crate::c19_dims2!(ev, id, $T, owned);
+            $crate::c19_dims1!(ev, id, shard, shards, $T, owned, Linear);
+            $crate::c19_dims2!(ev, id, shard, shards, $T, owned);
             if stratum == 0 {
-                $crate::c19_dims1!(ev, id, $T, view, Linear);
-                $crate::c19_dims1!(ev, id, $T, shared, Linear);
-                $crate::c19_dims2!(ev, id, $T, view);
-                $crate::c19_dims2!(ev, id, $T, shared);
-                $crate::c19_all!(@spline $float, ev, id, $T);
+                $crate::c19_dims1!(ev, id, shard, shards, $T, view, Linear);
+                $crate::c19_dims1!(ev, id, shard, shards, $T, shared, Linear);
+                $crate::c19_dims2!(ev, id, shard, shards, $T, view);
+                $crate::c19_dims2!(ev, id, shard, shards, $T, shared);
+                $crate::c19_all!(@spline $float, ev, id, shard, shards, $T);
             }
             let _ = id;
         }
     };
-    (@spline float, $ev:ident, $id:ident, $T:ty) => {
-        $crate::c19_dims1!($ev, $id, $T, owned, CubicSpline);
+    (@spline float, $ev:ident, $id:ident, $shard:ident, $shards:ident, $T:ty) => {
+        $crate::c19_dims1!($ev, $id, $shard, $shards, $T, owned, CubicSpline);
     };
-    (@spline int, $ev:ident, $id:ident, $T:ty) => {};
+    (@spline int, $ev:ident, $id:ident, $shard:ident, $shards:ident, $T:ty) => {};
 }
